@@ -118,6 +118,7 @@ class Interp:
         self.stats = {"paths": 0, "calls": 0, "lifted": 0, "splits": 0}
         self.called_funcs = set()
         self.no_split = 0
+        self.force_attr_split = False
         self.watch = None  # optional callable(event dict)
 
     # ------------------------------------------------------------------ exploration
@@ -506,7 +507,7 @@ class Interp:
             if isinstance(obj, Obj):
                 if isinstance(v, VSet) and 1 < len(v.vals) <= 128 and self.no_split == 0 and \
                         all(isinstance(x, int) and not isinstance(x, bool) for x in v.vals) and \
-                        self._attr_read_elsewhere(obj.cls, target.attr, frame.func):
+                        (self.force_attr_split or self._attr_read_elsewhere(obj.cls, target.attr, frame.func)):
                     # state kept on an object: case split keeps it correlated with what is derived from it
                     vals = sorted(v.vals)
                     self.stats["splits"] += 1
